@@ -172,9 +172,8 @@ func enumShapes(full bool, yield func(Case) bool) {
 	idx := 0
 	emit := func(c Case) bool {
 		idx++
-		if idx%2 == 0 {
-			c.Entry = "file"
-		}
+		// every public door in turn (the two main ones twice as often)
+		c.Entry = append(entryPoints, "", "file")[idx%(len(entryPoints)+2)]
 		// after-failure dimension on a rotating fraction of the cases with plain variable names
 		if every := map[bool]int{false: 10, true: 3}[full]; idx%every == 0 && c.afterOK() {
 			c.After = afterVariants[(idx/every)%len(afterVariants)]
@@ -460,7 +459,7 @@ func enumScope(yield func(Case) bool) {
 							}
 						}
 						body[0].Sep = ""
-						c := Case{Nodes: body, Entry: "file",
+						c := Case{Nodes: body, Entry: entryPoints[idx%len(entryPoints)],
 							Vars: map[string]vals.V{"ca": vals.Bool(true)},
 							Lists: map[string][]map[string]vals.V{"rows": {
 								{"id": vals.Str("r0"), "inc": vals.Bool(true)},
@@ -485,6 +484,7 @@ func enumScope(yield func(Case) bool) {
 // list holds every assignment, in ascending or descending order, so every ordered pair of
 // choices (an earlier use taking member j, a later use taking member i) occurs.
 func enumSlot(yield func(Case) bool) {
+	slotIdx := 0
 	ref := func(v string) string { return "su." + v }
 	for nElif := 0; nElif <= 2; nElif++ {
 		for _, hasElse := range []bool{false, true} {
@@ -531,7 +531,8 @@ func enumSlot(yield func(Case) bool) {
 							body := []Node{plain("s0", ""),
 								{Kind: "slotted", M: "S", List: "rows", Var: "su", Twice: twice, Sep: sep, Kids: kids},
 								plain("s1", sep)}
-							c := Case{Nodes: body, Entry: "file", Lists: map[string][]map[string]vals.V{"rows": items}}
+							slotIdx++
+							c := Case{Nodes: body, Entry: entryPoints[slotIdx%len(entryPoints)], Lists: map[string][]map[string]vals.V{"rows": items}}
 							if !yield(c) {
 								return
 							}
@@ -550,6 +551,7 @@ func enumSlot(yield func(Case) bool) {
 // unwrapped spelling of the same component: all must choose the same branch. Every component is
 // used twice per case (with the two conditions swapped) between plain siblings.
 func enumComp(yield func(Case) bool) {
+	compIdx := 0
 	for _, variant := range compVariantNames {
 		for _, short := range []bool{false, true} {
 			for assign := 0; assign < 4; assign++ {
@@ -562,8 +564,48 @@ func enumComp(yield func(Case) bool) {
 							{Kind: "text", M: "t", Sep: sep},
 							{Kind: "comp", M: "y", Variant: variant, Short: short, Cond: ref("cb"), Cond2: ref("ca"), Sep: sep},
 							plain("s1", sep)}
+						compIdx++
 						c := place(pl, body, spec.values(assign), spec.values((assign+1)%4))
-						c.Entry = "file"
+						c.Entry = entryPoints[compIdx%len(entryPoints)]
+						if !yield(c) {
+							return
+						}
+					}
+				}
+			}
+		}
+	}
+}
+
+// ---------------------------------------------------------------- other places for a chain
+
+// enumPlace yields chains in the places the other families do not reach: slot content that a
+// page hands to its layout, the layout file itself, and elements with a parsing context of their
+// own (noscript, list, select, table body).
+func enumPlace(yield func(Case) bool) {
+	idx := 0
+	for nElif := 0; nElif <= 2; nElif++ {
+		for _, hasElse := range []bool{false, true} {
+			spec := chainSpec{nElif: nElif, hasElse: hasElse, prefix: "m", vars: condNames[:4]}
+			for assign := 0; assign < 1<<spec.conds(); assign++ {
+				for _, sep := range []string{"", "wcw"} {
+					for _, where := range []string{"layout:slot", "layout:file", "noscript", "ul", "select", "table", "div>noscript", "div>table"} {
+						idx++
+						ms := spec.members(sep, func(v string) string { return v })
+						ms[0].Sep = sep
+						c := Case{Vars: spec.values(assign), Entry: entryPoints[idx%len(entryPoints)]}
+						if strings.HasPrefix(where, "layout:") {
+							c.Layout = where[7:]
+							c.Nodes = append(append([]Node{plain("s0", "")}, ms...), plain("s1", sep))
+						} else {
+							variant := strings.TrimPrefix(where, "div>")
+							kids := append(append([]Node{plain("k0", "")}, ms...), plain("k1", sep))
+							ctx := Node{Kind: "ctx", M: "X", Variant: variant, Sep: sep, Kids: kids}
+							c.Nodes = []Node{plain("s0", ""), ctx, plain("s1", sep)}
+							if strings.HasPrefix(where, "div>") {
+								c.Nodes = []Node{plain("D", "", c.Nodes...)}
+							}
+						}
 						if !yield(c) {
 							return
 						}
@@ -592,6 +634,7 @@ type nestGen struct {
 	next     int
 	maxDepth int
 	inSlot   bool
+	atoms    bool     // function names may be used as absent-variable conditions (not under the funcname / call forms)
 	bools    bool     // comparison forms: every condition variable is a defined bool, no undefined names
 	plain    bool     // globals are written as plain names: vloops may shadow them
 	vlists   []string // vloop lists used
@@ -604,7 +647,14 @@ func (g *nestGen) marker() string {
 
 func (g *nestGen) sep() string { return rapid.SampledFrom(sepKinds).Draw(g.t, "sep") }
 
+// funcAtoms are identifiers that are no variables but names of default or registered template
+// functions: as a condition such a word is an absent variable, falsy.
+var funcAtoms = []string{"title", "upper", "lower", "len", "trim", "default", "json", "escape", "boom", "nok"}
+
 func (g *nestGen) cond(loopVars []string) string {
+	if g.atoms && rapid.IntRange(0, 9).Draw(g.t, "fatom") == 0 {
+		return rapid.SampledFrom(funcAtoms).Draw(g.t, "fname")
+	}
 	if rapid.IntRange(0, 7).Draw(g.t, "prop") == 0 && !g.bools {
 		// the name of a component prop: undefined wherever the page evaluates it
 		return fmt.Sprintf("p%d", rapid.IntRange(0, 11).Draw(g.t, "pk"))
@@ -690,7 +740,20 @@ func (g *nestGen) siblings(depth int, loopVars []string, lo, hi int) []Node {
 		if len(out) == 0 && depth == 0 {
 			sep = ""
 		}
-		switch k := rapid.IntRange(0, 30).Draw(g.t, "kind"); {
+		switch k := rapid.IntRange(0, 32).Draw(g.t, "kind"); {
+		case k >= 31:
+			// a chain of leaf members in another parsing context
+			n := Node{Kind: "ctx", M: g.marker(), Sep: sep, Variant: rapid.SampledFrom([]string{"noscript", "ul", "select", "table"}).Draw(g.t, "ctx")}
+			n.Kids = append(n.Kids, Node{Kind: "plain", M: g.marker()})
+			for k, m := range g.chain(g.maxDepth, loopVars, g.sep()) { // at maxDepth: no nested kids
+				m.Tmpl, m.For, m.Pre, m.Once, m.Kids = false, 0, false, false, nil
+				if k == 0 {
+					m.Kind = "if"
+				}
+				n.Kids = append(n.Kids, m)
+			}
+			n.Kids = append(n.Kids, Node{Kind: "plain", M: g.marker(), Sep: g.sep()})
+			out = append(out, n)
 		case k >= 29:
 			// a component written compactly with a <template> root, its chain driven by two props
 			strip := func(c string) string { return strings.TrimPrefix(c, "!") }
@@ -754,6 +817,13 @@ func (g *nestGen) siblings(depth int, loopVars []string, lo, hi int) []Node {
 	return out
 }
 
+func noShort(nodes []Node) {
+	for i := range nodes {
+		nodes[i].Short = false
+		noShort(nodes[i].Kids)
+	}
+}
+
 func hasChain(nodes []Node) bool {
 	for i := range nodes {
 		if nodes[i].Kind == "if" || hasChain(nodes[i].Kids) {
@@ -794,6 +864,7 @@ func genNest(rec *ev.Rec, open map[string]bool) func(*rapid.T) Case {
 			c.Items = ""
 		}
 		g.plain = c.Form == "" || c.Form == "funcname"
+		g.atoms = c.Form != "funcname" && !isCmp(c.Form)
 		c.Nodes = g.siblings(0, nil, 1, 4)
 		if len(g.vlists) > 0 {
 			c.VLists = map[string][]vals.V{}
@@ -830,8 +901,12 @@ func genNest(rec *ev.Rec, open map[string]bool) func(*rapid.T) Case {
 			}
 			c.Lists[list] = items
 		}
-		if rapid.Bool().Draw(t, "file") {
-			c.Entry = "file"
+		c.Entry = rapid.SampledFrom(entryPoints).Draw(t, "door")
+		if rapid.IntRange(0, 5).Draw(t, "layout") == 0 {
+			c.Layout = rapid.SampledFrom([]string{"slot", "file"}).Draw(t, "layoutkind")
+			// shorthand component tags inside content handed to a layout / inside layout files are
+			// not resolved on the current tree (components in layouts: C05 / C07's subject)
+			noShort(c.Nodes)
 		}
 		if c.afterOK() && rapid.IntRange(0, 3).Draw(t, "after") == 0 {
 			c.After = rapid.SampledFrom(afterVariants).Draw(t, "afterv")
@@ -936,7 +1011,7 @@ func genAnyValue(t *rapid.T, depth int) vals.V {
 // genValue draws a random value; positions inside the region of an open finding are left out.
 func genValue(rec *ev.Rec, open map[string]bool) func(*rapid.T) TruthCase {
 	return func(t *rapid.T) TruthCase {
-		c := TruthCase{Val: genAnyValue(t, 0)}
+		c := TruthCase{Val: genAnyValue(t, 0), Entry: rapid.SampledFrom(entryPoints).Draw(t, "door")}
 		if rapid.IntRange(0, 5).Draw(t, "named") == 0 {
 			c.Val = namedValues[rapid.IntRange(0, len(namedValues)-1).Draw(t, "nv")]
 			if open[fNamedZero] && namedZeroRegion(c.Val) {
